@@ -808,6 +808,7 @@ func TestC12(t *testing.T) {
 		"Events() range ends, writes return, no panic, no socket of the scenario left in /proc/self/fd; plus failed-Initialize configurations; plus, in a child process of its own, three nodes closed after 31.5 s of life (the 30 s housekeeping has run: without / with ArduPilot senders / silent). distinct = (scenario, point, occurrence, consumer, writers) placements whose trap was reached")
 	rep.RuleAdd("Also: custom transports that are net.Conn values; a serial port that takes no output (writer inside Write) whose read side then fails, over and over; one node value living six lives; odd endpoint configurations.")
 	rep.RuleAdd("Rounds 12-15: custom transports that are net.Conn values, serial lines that take no output while the read side fails, checkpoint and resume after the known pion crash.")
+	rep.RuleAdd("Rounds 16-17: closes during name lookups that get no answer; the same Node value initialised again after a failed Initialize.")
 	rep.Assume("fault model: a transport's blocked Read/Write is released by its Close (every real connection behaves so)")
 	seed := shardSeed()
 	shard, nsh := shardInfo()
